@@ -205,6 +205,46 @@ def fam_reduce_ragged(rng):
                 {"value": vals, "type": T})
 
 
+def fam_reduce_datetime(rng):
+    """C03 on datetime64 / timedelta64 leaves: min, max, argmin, argmax, count over instants (and sum of time
+    differences) combine exactly the elements of each group; results of min/max/sum keep the unit"""
+    kind = rng.choice(["M8", "m8"])
+    unit = rng.choice(["s", "ms", "us"])
+    ns = {"s": 10**9, "ms": 10**6, "us": 10**3}[unit]
+    T = gen_pure(rng, rng.randint(0, 2), leaf=["int64"])
+    depth, _ = R.list_depth(T)
+    red = rng.choice(["min", "max", "argmin", "argmax", "count"] + (["sum"] if kind == "m8" else []))
+    vals = [L.gen_value(rng, T) for _ in range(L.toplen(rng, 0, 4))]
+    axis = rng.randint(-depth, depth - 1)
+    posaxis = axis + depth if axis < 0 else axis
+    allow_indexed = True
+    if red in ("argmin", "argmax"):
+        if posaxis < depth - 2:
+            return None
+        if posaxis == depth - 2:
+            if has_option_list(T):
+                return None
+            allow_indexed = False
+    T2 = _retype_leaf(T, "%s[%s]" % (kind, unit))
+    lay = L.Enc(rng, allow_indexed=allow_indexed).encode(vals, T2)
+    keep = rng.random() < 0.3
+    mask = True if red in ("min", "max") else (rng.random() < 0.4)      # (no identity is defined for instants)
+    ref = R.reduce_typed(vals, T, axis, red, mask, keep)
+    tag = "dt" if kind == "M8" else "td"
+
+    def wrap(v):
+        if v is None:
+            return None
+        if isinstance(v, list):
+            return [wrap(e) for e in v]
+        return (tag, v * ns)
+    if red in ("min", "max", "sum"):
+        ref = wrap(ref)
+    line = "reduce %s %d %d %d %s" % (red, axis, mask, keep, lay.tokens())
+    return Case(line, expect_value(ref, "%s(axis=%d, mask_identity=%s, keepdims=%s) of the %s[%s] ticks %r" % (red, axis, mask, keep, kind, unit, vals), cmp=L.same),
+                {"value": vals, "type": T})
+
+
 def fam_reduce_rect(rng):
     """C03 on rectilinear arrays (RegularArray chains and n-dimensional NumpyArray): NumPy's result, every reducer and axis"""
     T = gen_rect(rng, rng.randint(0, 3), leaf=(["complex128", "complex64"] if rng.random() < 0.1 else None))
@@ -388,16 +428,34 @@ def fam_sort(rng):
         ref = _sort_strings(vals, depth, asc)
         return Case("sort -1 %d %d %s" % (asc, stable, lay.tokens()),
                     expect_value(ref, "sort(axis=-1, ascending=%s) of the strings %r" % (asc, vals), cmp=L.same), {"value": vals, "type": T})
-    T = gen_pure(rng, rng.randint(0, 3), regular=0.0, optlist=SORT_OPTLIST, optleaf=SORT_OPTLEAF)
+    dt = False          # (sorting datetime64 / timedelta64 is a documented refusal in this version: not generated)
+    T = gen_pure(rng, rng.randint(0, 3), regular=0.0, optlist=SORT_OPTLIST, optleaf=SORT_OPTLEAF, leaf=(["int64"] if dt else None))
     if T[0] == "list" and rng.random() < 0.3:
         T = ("option", T)      # missing lists at the outermost level only (deeper ones: KF-C06-sort-missing-lists)
     vals = [L.gen_value(rng, T) for _ in range(L.toplen(rng, 0, 4))]
-    lay = L.Enc(rng).encode(vals, T)
+    if dt:
+        kind, unit = rng.choice(["M8", "m8"]), rng.choice(["s", "ms", "us"])
+        lay = L.Enc(rng).encode(vals, _retype_leaf(T, "%s[%s]" % (kind, unit)))
+    else:
+        lay = L.Enc(rng).encode(vals, T)
     depth = struct_depth(T)
     posaxis = depth - 1
     axis = posaxis if rng.random() < 0.5 else -1
     asc, stable = rng.random() < 0.5, rng.random() < 0.5
     ref = R.sort(vals, posaxis, asc)
+    if dt:
+        ns_ = {"s": 10**9, "ms": 10**6, "us": 10**3}[unit]
+
+        def wrap_(v):
+            if v is None:
+                return None
+            if isinstance(v, list):
+                return [wrap_(e) for e in v]
+            return ("dt" if kind == "M8" else "td", v * ns_)
+        ref = wrap_(ref)
+        return Case("sort %d %d %d %s" % (axis, asc, stable, lay.tokens()),
+                    expect_value(ref, "sort(axis=%d, ascending=%s, stable=%s) of the %s[%s] ticks %r" % (axis, asc, stable, kind, unit, vals), cmp=L.same),
+                    {"value": vals, "type": T})
     return Case("sort %d %d %d %s" % (axis, asc, stable, lay.tokens()),
                 expect_value(ref, "sort(axis=%d, ascending=%s, stable=%s) of %r" % (axis, asc, stable, vals)), {"value": vals, "type": T})
 
@@ -1884,6 +1942,7 @@ def fam_forth(rng):
 FAMILIES = {
     "reduce_ragged": (fam_reduce_ragged, ["C03"]),
     "reduce_rect": (fam_reduce_rect, ["C03"]),
+    "reduce_datetime": (fam_reduce_datetime, ["C03"]),
     "tolist": (fam_tolist, ["C02"]),
     "types": (fam_types, ["C17"]),
     "layout_independent": (fam_layout_independent, ["C02"]),
